@@ -70,9 +70,14 @@ def decToNat? (s : List Char) : Option Nat :=
 /-- `int(s)` for an optional sign followed by ASCII digits; anything else is a `ValueError` -/
 def pyInt? (s : List Char) : Except Err Int :=
   match s with
-  | '-' :: r => match decToNat? r with | some n => .ok (-(n : Int)) | none => .error .valueError
-  | '+' :: r => match decToNat? r with | some n => .ok (n : Int) | none => .error .valueError
-  | r => match decToNat? r with | some n => .ok (n : Int) | none => .error .valueError
+  | [] => .error .valueError
+  | c :: r =>
+    if c = '-' then
+      match decToNat? r with | some n => .ok (-(n : Int)) | none => .error .valueError
+    else if c = '+' then
+      match decToNat? r with | some n => .ok (n : Int) | none => .error .valueError
+    else
+      match decToNat? (c :: r) with | some n => .ok (n : Int) | none => .error .valueError
 
 /-- `s.split(c)` -/
 def splitGo (c : Char) : List Char → List Char → List (List Char)
